@@ -41,7 +41,9 @@ def string_is_boolean(array: np.ndarray, state: dict) -> bool:
 
 @Boolean.register_transformer(String, np.ndarray)
 def string_to_boolean(array: np.ndarray, state: dict) -> np.ndarray:
-    array = array.copy()
+    # an object copy: booleans written into a fixed-width string array would be
+    # stored as the strings 'True' / 'Fals'
+    array = array.astype(object)
     mask = nan_mask(array)
     # TODO: Nan handling not implemented for generators yet
     val_generator = np.array([val.lower() for val in array[mask]])
